@@ -114,6 +114,10 @@ func want(f F, wire []byte) (v any, specDefined bool) {
 	if eff == 0 {
 		eff = spec.DefaultOrder
 	}
+	if eff == spec.OrdLowWordFirst || eff == spec.OrdHighWordFirst {
+		// a bare word-order flag: the bytes are read in the default (big-endian) order, the WORD order is the selected one
+		eff |= spec.DefaultOrder & 3
+	}
 	switch f.Type {
 	case 1:
 		return spec.RegBit(wire, int(f.Bit)), true
@@ -337,7 +341,7 @@ func eval(c Case, res *ev.Result, lc *local) {
 
 func variants(addrs []uint16, small bool) []F {
 	var out []F
-	orders := []uint8{0, 1, 2, 5, 6, 9, 10}
+	orders := []uint8{0, 1, 2, 5, 6, 9, 10, 4, 8} // 4 / 8: a word-order flag alone
 	if small {
 		orders = []uint8{0, 5, 6}
 	}
@@ -379,6 +383,9 @@ func variants(addrs []uint16, small bool) []F {
 			for _, l := range []uint8{1, 2, 3, 10, 249, 250} {
 				if small && l != 3 && l != 250 {
 					continue
+				}
+				if o == 4 || o == 8 {
+					continue // what a bare word-order flag means for the BYTES of a string is not documented anywhere: not demanded
 				}
 				if fit((int(l) + 1) / 2) {
 					out = append(out, F{Addr: a, Type: 13, Len: l, Order: o})
@@ -551,6 +558,9 @@ func run(tier string, shard, nsh int, res *ev.Result) {
 			}
 		})
 	}
+	if shard == 0 {
+		jobs = append(jobs, func(lc *local) { namesCheck(res, lc) })
+	}
 	var mu sync.Mutex
 	var tot local
 	ev.Par(len(jobs), runtime.NumCPU(), func(i int) {
@@ -574,6 +584,13 @@ func run(tier string, shard, nsh int, res *ev.Result) {
 }
 
 func replay(check string, raw json.RawMessage, res *ev.Result) {
+	if check == "builder-names" {
+		var c NameCase
+		json.Unmarshal(raw, &c)
+		var lc local
+		evalNames(c, res, &lc)
+		return
+	}
 	var c Case
 	json.Unmarshal(raw, &c)
 	var lc local
